@@ -23,9 +23,10 @@ shutil.copytree(out, work)
 def clean(cmd):
     """the tool applies the patch and builds the library itself: drop those steps (and trailing remarks) from the agent's command"""
     cmd = cmd.split("   #")[0]
-    parts = [p for p in cmd.split("&&") if not re.search(r"git (-C \S+ )?apply|cmake --build|run_tests\.sh|git (-C \S+ )?checkout", p)]
-    parts = [re.sub(r"^\s*\(\s*cd [^)]*\)\s*$", "true", p) for p in parts]
-    return "&&".join(parts)
+    cmd = re.sub(r"\(\s*cd [^)]*git[^)]*\)\s*(&&|;)", "", cmd)
+    for pat in (r"git (-C \S+ )?apply[^&;]*(&&|;)", r"cmake --build[^&;]*(&&|;)", r"\S*run_tests\.sh[^&;]*(&&|;)", r"git (-C \S+ )?checkout[^&;]*(&&|;)"):
+        cmd = re.sub(pat, "", cmd)
+    return cmd
 def demo():
     cmd = clean(meta["demo_build"]).replace(out, work).replace(agent_wt, M)
     r = sh(cmd, cwd=work, timeout=1800)
